@@ -8,10 +8,18 @@
 // (privilege_set.go, mysql_db.go, auth_default.go, plan/grant.go, plan/revoke.go, rowexec/priv.go) and on
 // the Spec (grants are a set; GRANT adds, REVOKE removes exactly the named grants).
 //
+// Before the random histories a split-level stream (splitHistory) covers the statements that require
+// SEVERAL privileges in one operation — REPLACE, LOCK TABLES, RENAME TABLE, GRANT/REVOKE by an ordinary
+// account — with each required privilege granted separately at an independently chosen level (global,
+// database, table) and holder (the account, role r1, role r2): the only inputs on which the way the
+// per-privilege decisions are combined is visible (Gms.C39.multi_priv_decomposes, oneLevel_eq_of_single).
+//
 // Model-free oracle: (1) a statement that was refused leaves accounts, grants, role edges and table
 // data unchanged; (2) a SQL probe is allowed exactly when the grants made so far to the session's
 // account and to the roles granted to it include the privilege that class of statement needs at the
-// global, database, table or routine level (reference bookkeeping in Go, requirement table below).
+// global, database, table or routine level (reference bookkeeping in Go, requirement table below); a
+// statement that needs several privileges (multiNeeds) is allowed exactly when each of them is included,
+// each one at any level.
 package main
 
 import (
@@ -200,6 +208,14 @@ type probe struct {
 	undo  func(db, tbl string) []string
 }
 
+// need is one privilege a statement requires on one subject; it may be held at the global level, at the
+// level of the subject's database or (if tbl != "") at the level of the subject's table — every
+// requirement of a statement independently of the others.
+type need struct {
+	priv    int
+	db, tbl string
+}
+
 var probes = []probe{
 	{"select", func(d, t string, n int) string { return "SELECT * FROM " + d + t }, 0, "table", nil},
 	{"insert", func(d, t string, n int) string { return fmt.Sprintf("INSERT INTO %s%s (a) VALUES (%d)", d, t, 1000+n) }, 1, "table", nil},
@@ -218,6 +234,24 @@ var probes = []probe{
 	{"use", func(d, t string, n int) string { return "USE " + strings.TrimSuffix(d, ".") }, -1, "visible", nil},
 }
 
+// multiProbes: statements whose authorization asks for SEVERAL privileges in one operation (and RENAME
+// for two operations on two subjects). Each required privilege may come from any level and from the
+// account itself or any of its roles.
+var multiProbes = []probe{
+	{class: "replace", sql: func(d, t string, n int) string { return fmt.Sprintf("REPLACE INTO %s%s (a) VALUES (%d)", d, t, 1000+n%3) }, level: "multi"},
+	{class: "locktables", sql: func(d, t string, n int) string { return "LOCK TABLES " + d + t + " " + []string{"READ", "WRITE"}[n%2] }, level: "multi",
+		undo: func(d, t string) []string { return []string{"UNLOCK TABLES"} }},
+	{class: "rename", sql: func(d, t string, n int) string { return "RENAME TABLE " + d + t + " TO " + d + "zr" }, level: "multi",
+		undo: func(d, t string) []string { return []string{"RENAME TABLE " + d + "zr TO " + d + t} }},
+}
+
+// multiNeeds: what each multi-privilege statement class requires (level "multi" of a probe).
+var multiNeeds = map[string]func(db, tbl string) []need{
+	"replace":    func(db, tbl string) []need { return []need{{1, db, tbl}, {3, db, tbl}} },                               // INSERT + DELETE
+	"locktables": func(db, tbl string) []need { return []need{{0, db, tbl}, {17, db, tbl}} },                              // SELECT + LOCK TABLES
+	"rename":     func(db, tbl string) []need { return []need{{13, db, tbl}, {5, db, tbl}, {4, db, "zr"}, {1, db, "zr"}} }, // ALTER + DROP on the source, CREATE + INSERT on the target
+}
+
 func (p probe) allowed(eff map[string]bool, db, tbl string) bool {
 	has := func(k string) bool { return eff[k] }
 	ps := fmt.Sprint(p.priv)
@@ -225,6 +259,14 @@ func (p probe) allowed(eff map[string]bool, db, tbl string) bool {
 		return true
 	}
 	switch p.level {
+	case "multi":
+		for _, n := range multiNeeds[p.class](db, tbl) {
+			q := fmt.Sprint(n.priv)
+			if !(has("G:"+q) || has("D:"+n.db+":"+q) || has("T:"+n.db+":"+n.tbl+":"+q)) {
+				return false
+			}
+		}
+		return true
 	case "table":
 		return has("G:"+ps) || has("D:"+db+":"+ps) || has("T:"+db+":"+tbl+":"+ps)
 	case "db":
@@ -597,6 +639,11 @@ func (h *history) probeStep(g *gen) {
 	if g.r.Chance(1, 4) && p.class != "use" && p.class != "call" { // unqualified name, resolved through the current database
 		cur, qual = db, ""
 	}
+	h.probeExec(p, user, addr, db, tbl, cur, qual)
+}
+
+// probeExec runs one SQL probe as user@addr, undoes its effect when it was allowed and evaluates oracle (2).
+func (h *history) probeExec(p probe, user, addr, db, tbl, cur, qual string) string {
 	h.n++
 	text := p.sql(qual, tbl, h.n)
 	if p.class == "use" {
@@ -604,7 +651,11 @@ func (h *history) probeStep(g *gen) {
 	}
 	obs := h.sqlStep(user, addr, cur, aclx.Stmt{Kind: "none", Text: text})
 	h.feat["probe"] = true
-	if obs == "ok" && p.undo != nil {
+	h.out.Stat("probe:" + p.class + ":" + obs)
+	if obs == "ok" && p.class == "locktables" {
+		h.env.Run(h.env.Session(user, addr), cur, "UNLOCK TABLES") // same session; not a step of the history
+		aclx.Log = aclx.Log[:0]
+	} else if obs == "ok" && p.undo != nil {
 		for _, q := range p.undo(db+".", tbl) {
 			if r := h.env.Run(h.env.Root, "d", q); r.Class() != "ok" {
 				panic(fmt.Sprintf("undo %q failed: %v %s", q, r.Err, r.Panic))
@@ -627,8 +678,12 @@ func (h *history) probeStep(g *gen) {
 		}
 		if want {
 			h.feat["probe-allowed"] = true
+			if p.level == "multi" {
+				h.feat["multi-allowed"] = true
+			}
 		}
 	}
+	return obs
 }
 
 // tag names the known-defect region the history is in (decided on the history, not on the failure).
@@ -650,6 +705,11 @@ func (h *history) syntheticStep(g *gen) {
 		addr = "localhost"
 	}
 	cur := hx.Pick(g.r, []string{"d", "d", "e", ""})
+	h.syntheticExec(auth, user, addr, cur)
+}
+
+// syntheticExec calls the real handler's HandleAuth directly for the session user@addr.
+func (h *history) syntheticExec(auth vast.AuthInformation, user, addr, cur string) {
 	sess := h.env.Session(user, addr)
 	sess.SetCurrentDatabase(cur)
 	var err error
@@ -779,17 +839,261 @@ func (h *history) probeFixed(user, addr, db, tbl string, p probe) {
 	}
 }
 
+// ---------------------------------------------------------------------------------------------
+// Split-level stream: statements that require SEVERAL privileges, held at DIFFERENT levels.
+//
+// Every single-privilege statement is decided by one lookup per level, so the way the per-privilege
+// decisions are combined ("each required privilege at some level" — Gms.C39.allow_iff,
+// multi_priv_decomposes) is only visible to statements that need two or more privileges: REPLACE
+// (INSERT+DELETE), LOCK TABLES (SELECT+LOCK TABLES), RENAME TABLE (ALTER+DROP on the source, CREATE+INSERT
+// on the target), GRANT/REVOKE by an account that is not a super user (the named privileges + GRANT
+// OPTION). A history of this stream takes one such requirement and places each required privilege
+// independently at the global, database or table level, on the account itself or on one of two roles
+// granted to it (controls: one privilege left out; everything at one level), then asks the question through
+// the SQL statement, through direct HandleAuth calls, after an exact-level REVOKE of one of the
+// privileges and after re-granting it at another level.
+
+type placement struct {
+	plan  int    // plan.PrivilegeType
+	level string // "global" | "db" | "table"
+	via   int    // 0 the account itself, 1/2 role r1/r2
+	db    string
+	tbl   string
+}
+
+// tableGrantable: plan privileges that are legal at table level (the others are placed at global|db level only).
+var tableGrantable = map[int]bool{1: true, 3: true, 10: true, 11: true, 16: true, 17: true, 18: true, 25: true, 31: true}
+
+func (pl placement) stmt(kind string, u aclx.Acct, roles []aclx.Acct) aclx.Stmt {
+	s := aclx.Stmt{Kind: kind, Privs: []aclx.PPriv{{Type: pl.plan}}, Users: []aclx.Acct{u}}
+	if pl.via > 0 {
+		s.Users = []aclx.Acct{roles[pl.via-1]}
+	}
+	switch pl.level {
+	case "global":
+		s.LvDb, s.LvTbl = "*", "*"
+	case "db":
+		s.LvDb, s.LvTbl = pl.db, "*"
+	default:
+		s.LvDb, s.LvTbl = pl.db, pl.tbl
+	}
+	return s
+}
+
+func (h *history) rootStep(s aclx.Stmt) {
+	obs := h.sqlStep("root", "localhost", "d", s)
+	h.feat[s.Kind] = true
+	if obs == "ok" {
+		h.ref.apply(s, "d")
+	} else if strings.HasPrefix(obs, "err:") {
+		h.ref.failed = true
+	}
+}
+
+// sql privilege number -> plan privilege number, for the privileges the multi-privilege statements need
+var sqlToPlan = map[int]int{0: 25, 1: 18, 2: 31, 3: 10, 4: 3, 5: 11, 10: 16, 12: 17, 13: 1, 17: 19}
+
+func splitHistory(out *hx.Out, r *hx.Rand) {
+	h := newHistory(out)
+	g := &gen{r: r, ref: h.ref}
+	u := aclx.Acct{Name: "u1", Host: hx.Pick(r, []string{"localhost", "localhost", "%"})}
+	u2 := aclx.Acct{Name: "u2", Host: "localhost"}
+	roles := []aclx.Acct{{Name: "r1", Host: "%"}, {Name: "r2", Host: "%"}}
+	addr := "localhost"
+	if u.Host == "%" {
+		addr = hx.Pick(r, sessAddrs)
+	}
+	h.rootStep(aclx.Stmt{Kind: "cu", Users: []aclx.Acct{u, u2}})
+	h.rootStep(aclx.Stmt{Kind: "cr", Roles: roles})
+	h.rootStep(aclx.Stmt{Kind: "gr", Roles: []aclx.Acct{roles[0]}, Users: []aclx.Acct{u}})
+	h.rootStep(aclx.Stmt{Kind: "gr", Roles: []aclx.Acct{roles[1]}, Users: []aclx.Acct{u}})
+
+	// the requirement
+	scen := hx.Pick(r, []string{"replace", "replace", "locktables", "rename", "grant", "grant", "revoke"})
+	db, tbl := "d", hx.Pick(r, []string{"t", "s"})
+	if scen == "rename" {
+		tbl = "s"
+	}
+	var needs []need
+	var adm aclx.Stmt // the GRANT/REVOKE the account tries (scenarios grant, revoke)
+	switch scen {
+	case "grant", "revoke":
+		adm = aclx.Stmt{Kind: scen, LvDb: db, LvTbl: hx.Pick(r, []string{"*", tbl}), Users: []aclx.Acct{u2}}
+		pool := []int{25, 18, 31, 10}
+		k := 1 + r.Intn(2)
+		first := r.Intn(len(pool))
+		for j := 0; j < k; j++ {
+			i := (first + j) % len(pool)
+			adm.Privs = append(adm.Privs, aclx.PPriv{Type: pool[i]})
+			needs = append(needs, need{aclx.PlanToSQLPriv[pool[i]], db, tbl})
+		}
+		needs = append(needs, need{10, db, tbl}) // GRANT OPTION
+		if adm.LvTbl == "*" {
+			for i := range needs {
+				needs[i].tbl = ""
+			}
+		}
+	default:
+		needs = multiNeeds[scen](db, tbl)
+	}
+	// placements: each required privilege at its own level and holder
+	mode := r.Intn(10) // 0: one privilege missing, 1: all at one level on the account, else independent
+	skip := -1
+	if mode == 0 {
+		skip = r.Intn(len(needs))
+	}
+	oneLevel := hx.Pick(r, []string{"global", "db", "table"})
+	var placed []placement
+	for i, n := range needs {
+		if i == skip {
+			continue
+		}
+		pl := placement{plan: sqlToPlan[n.priv], db: n.db, tbl: n.tbl, via: r.Intn(3)}
+		levels := []string{"global", "db"}
+		if n.tbl != "" && tableGrantable[pl.plan] {
+			levels = append(levels, "table", "table")
+		}
+		pl.level = hx.Pick(r, levels)
+		if mode == 1 {
+			pl.via = 0
+			pl.level = oneLevel
+			if oneLevel == "table" && !(n.tbl != "" && tableGrantable[pl.plan]) {
+				pl.level = "db"
+			}
+		}
+		if r.Chance(1, 8) { // the level is named in another letter case
+			pl.db = strings.ToUpper(pl.db)
+		}
+		placed = append(placed, pl)
+		h.rootStep(pl.stmt("grant", u, roles))
+	}
+	distinct := map[string]bool{}
+	for _, pl := range placed {
+		distinct[fmt.Sprintf("%s/%d", pl.level, pl.via)] = true
+	}
+	if len(distinct) > 1 && skip < 0 {
+		h.out.Stat("split:privileges-held-at-different-levels")
+	}
+	h.out.Stat("split:" + scen)
+
+	var mp probe
+	for _, p := range multiProbes {
+		if p.class == scen {
+			mp = p
+		}
+	}
+	ask := func() {
+		cur, qual := "d", db+"."
+		if r.Chance(1, 4) {
+			qual = ""
+		}
+		switch scen {
+		case "grant", "revoke":
+			obs := h.sqlStep(u.Name, addr, "d", adm)
+			h.feat[adm.Kind] = true
+			h.out.Stat("split:" + scen + ":" + obs)
+			if obs == "ok" {
+				h.ref.apply(adm, "d")
+				h.feat["multi-allowed"] = true
+			} else if strings.HasPrefix(obs, "err:") {
+				h.ref.failed = true
+			}
+		default:
+			h.probeExec(mp, u.Name, addr, db, tbl, cur, qual)
+			// the same question asked of the handler directly, in the forms the parser emits
+			auth := vast.AuthInformation{AuthType: map[string]string{"replace": "REPLACE", "locktables": "LOCK", "rename": "RENAME"}[scen]}
+			switch scen {
+			case "replace":
+				auth.TargetType, auth.TargetNames = hx.Pick(r, []string{"DB_TABLE_IDENT", "DB_TABLE_IDENTS"}), []string{db, tbl}
+			case "locktables":
+				auth.TargetType, auth.TargetNames = "DB_TABLE_IDENTS", []string{db, tbl}
+				if r.Chance(1, 2) {
+					auth.TargetNames = append(auth.TargetNames, "d", "t")
+				}
+			case "rename":
+				auth.TargetType, auth.TargetNames = "IGNORE", []string{db, tbl, db, "zr"}
+			}
+			h.syntheticExec(auth, u.Name, addr, "d")
+		}
+	}
+	ask()
+	// neighbours: the single-privilege statements on the same subject, another multi-privilege statement
+	for k := r.Intn(3); k > 0; k-- {
+		h.probeExec(hx.Pick(r, probes[:4]), u.Name, addr, db, tbl, "d", db+".")
+	}
+	if r.Chance(1, 2) {
+		op := hx.Pick(r, multiProbes)
+		t2 := tbl
+		if op.class == "rename" {
+			t2 = "s"
+		}
+		h.probeExec(op, u.Name, addr, db, t2, "d", db+".")
+	}
+	// take one of the privileges away again at exactly the level it was granted (global and table
+	// level only: a database-level REVOKE is the region of finding db_revoke_drops_lower_grants), ask again,
+	// then give it back at another level and ask a third time
+	var cand []int
+	for i, pl := range placed {
+		if pl.level != "db" {
+			cand = append(cand, i)
+		}
+	}
+	if len(cand) > 0 && r.Chance(2, 3) {
+		i := hx.Pick(r, cand)
+		pl := placed[i]
+		h.rootStep(pl.stmt("revoke", u, roles))
+		ask()
+		if pl.level == "global" {
+			pl.level = "db"
+		} else {
+			pl.level = "global"
+		}
+		pl.via = r.Intn(3)
+		h.rootStep(pl.stmt("grant", u, roles))
+		ask()
+	}
+	// a tail of ordinary random steps (1 history in 4)
+	if r.Chance(1, 4) {
+		for k := 3 + r.Intn(8); k > 0; k-- {
+			switch x := r.Intn(10); {
+			case x < 4:
+				h.adminStep(g, false)
+			case x < 7:
+				h.probeStep(g)
+			default:
+				ask()
+			}
+		}
+	}
+	if h.feat["multi-allowed"] {
+		h.out.Stat("split:history-with-allowed-multi-privilege-statement")
+	}
+	h.finish()
+}
+
 func run(a hx.RunArgs) error {
 	out := hx.NewOut(a.OutDir)
 	defer out.Close()
 	out.Rule = "one case = one history on a fresh engine with accounts enabled: 10-40 steps mixing CREATE/DROP USER/ROLE, GRANT/REVOKE at global/database/table/routine level " +
 		"(ALL, single privileges, dynamic privileges, illegal-at-level privileges, WITH GRANT OPTION, names in mixed case, unqualified levels), GRANT/REVOKE role, " +
 		"run by root or by ordinary accounts, with probes by sessions user@address (exact, loopback, pattern and unknown hosts): SQL statements of 11 privilege classes and direct HandleAuth calls over " +
-		"all AuthType x TargetType combinations incl. malformed ones; a history is non-trivial when it contains a GRANT and a probe the grants allow"
+		"all AuthType x TargetType combinations incl. malformed ones; before them a split-level stream: one multi-privilege requirement (REPLACE, LOCK TABLES, RENAME TABLE, " +
+		"GRANT/REVOKE by an ordinary account) whose privileges are granted one by one at independently chosen levels (global/database/table) and holders (account, role r1, role r2), " +
+		"asked through the SQL statement and through HandleAuth, again after an exact-level REVOKE and after re-granting at another level; " +
+		"a history is non-trivial when it contains a GRANT and a probe the grants allow"
 	corpus(out)
 	nHist, maxSteps := 500, 30
 	if a.Thorough {
 		nHist, maxSteps = 40000, 40
+	}
+	// split-level stream (its own random source: the histories below are the same as before it existed)
+	nSplit := 150
+	if a.Thorough {
+		nSplit = 6000
+	}
+	rs := hx.NewRand(aclx.Scramble(a.Seed ^ 0x5b1e7c39))
+	for i := 0; i < nSplit; i++ {
+		splitHistory(out, rs.Fork())
 	}
 	r := hx.NewRand(aclx.Scramble(a.Seed))
 	for i := 0; i < nHist; i++ {
@@ -1191,5 +1495,45 @@ func extract(a hx.ExtractArgs) error {
 	})
 	sort.Strings(conds)
 	lf.DefStringList("userHasPrivilegesConditions", conds)
+	// … and the shape of every privilege lookup: (innermost enclosing `range` expression, receiver.method,
+	// arguments). Each level is asked about ONE privilege of the operation at a time — the loop variable of
+	// `range operation.StaticPrivileges` —, never about the whole list (variadic call), which would couple
+	// the levels at which different privileges of one operation are found.
+	var ranges []*ast.RangeStmt
+	var lookups []*ast.CallExpr
+	ast.Inspect(fd.Body, func(n ast.Node) bool {
+		switch t := n.(type) {
+		case *ast.RangeStmt:
+			ranges = append(ranges, t)
+		case *ast.CallExpr:
+			if se, ok := t.Fun.(*ast.SelectorExpr); ok && (se.Sel.Name == "Has" || se.Sel.Name == "HasDynamic") {
+				lookups = append(lookups, t)
+			}
+		}
+		return true
+	})
+	var lrows [][3]string
+	for _, ce := range lookups {
+		var in *ast.RangeStmt
+		for _, rs := range ranges {
+			if rs.Body.Pos() <= ce.Pos() && ce.End() <= rs.Body.End() && (in == nil || rs.Pos() > in.Pos()) {
+				in = rs
+			}
+		}
+		row := [3]string{"", md.Text(ce.Fun), ""}
+		if in != nil {
+			row[0] = md.Text(in.Value) + " := range " + md.Text(in.X)
+		}
+		var as []string
+		for _, e := range ce.Args {
+			as = append(as, md.Text(e))
+		}
+		row[2] = strings.Join(as, ", ")
+		if ce.Ellipsis.IsValid() {
+			row[2] += "..."
+		}
+		lrows = append(lrows, row)
+	}
+	lf.Raw(leanTriples("userHasPrivilegesLookups", lrows))
 	return lf.Write(a.Out)
 }
